@@ -73,6 +73,22 @@ class GivingUpHeuristic(ForbidWord):
         raise NoSolutionError("heuristic gives up", problem=problem, location=self.location)
 
 
+class OverwritingHeuristic(ForbidWord):
+    """resolution heuristic that rewrites every occurrence of the word in the local problem's
+    sequence directly, ignoring the mutation space: it may write into frozen regions or change a
+    protein (ill-behaved user code: only the final check stands between it and the caller)"""
+
+    def resolution_heuristic(self, problem):
+        w = self.word
+        alt = {"A": "C", "C": "A", "G": "T", "T": "G"}[w[0]] + w[1:]
+        seq = problem.sequence
+        for _ in range(len(seq)):
+            if w not in seq:
+                break
+            seq = seq.replace(w, alt)
+        problem.sequence = seq
+
+
 class CountLetter(Specification):
     """objective: number of `letter` in [a,b) (maximise); localizes to the overlap"""
     best_possible_score = None
@@ -99,7 +115,7 @@ class CountLetter(Specification):
 
 
 CUSTOM = {c.__name__: c for c in (ForbidWord, ForbidWordBadLocal, ForbidWordNoneLocal, NoLocations,
-                                  LazyHeuristic, GivingUpHeuristic, CountLetter)}
+                                  LazyHeuristic, GivingUpHeuristic, OverwritingHeuristic, CountLetter)}
 
 
 class CountLetterCapped(CountLetter):
